@@ -73,7 +73,7 @@ def tab_n(ctx):
 
     eng.on_call = on_call
     b = F.body(NEW)
-    outs = eng.call_path(NEW, eng.symbolic_args(b))
+    outs = eng.call_path(NEW, eng.symbolic_args(b, names=["conf", "storage_header"]))
     fl, ln = b["span"]["f"], b["span"]["l"]
     i_hdr, i_ext, i_pl = fidx(F, "dlt::Message", "header"), fidx(F, "dlt::Message", "extended_header"), fidx(F, "dlt::Message", "payload")
     i_plen, i_hasext = fidx(F, "dlt::StandardHeader", "payload_length"), fidx(F, "dlt::StandardHeader", "has_extended_header")
@@ -145,7 +145,7 @@ def overall_len(ctx):
     eng = Engine(F)
     eng.key_all = True
     b = F.body(OVERALL)
-    outs = eng.call_path(OVERALL, eng.symbolic_args(b))
+    outs = eng.call_path(OVERALL, eng.symbolic_args(b, names=["self"]))
     n = 0
     for st, rv in outs:
         kd = lib_wire.key_dict(st)
@@ -178,7 +178,7 @@ def overall_len(ctx):
         return None
 
     e2.on_call = on_call
-    outs = e2.call_path(BYTE_LEN, e2.symbolic_args(F.body(BYTE_LEN)))
+    outs = e2.call_path(BYTE_LEN, e2.symbolic_args(F.body(BYTE_LEN), names=["self"]))
     i_hdr = fidx(F, "dlt::Message", "header")
     ok = len(outs) == 1 and isinstance(outs[0][1], Int) and outs[0][1].lin == Lin.sym("LEN(self.header)") and len(seen) == 1 and isinstance(seen[0], Ref) and seen[0].loc == "obj:self" and seen[0].path == (("f", i_hdr),)
     if ok:
@@ -195,7 +195,7 @@ def storage(ctx):
     eng.key_adts = set()
     eng.keep_key = lambda x, fr: x[0] == "variant" and x[1] in ("time_stamp", "self.header.ecu_id")
     b = F.body(ADD_SH)
-    outs = eng.call_path(ADD_SH, eng.symbolic_args(b))
+    outs = eng.call_path(ADD_SH, eng.symbolic_args(b, names=["self", "time_stamp"]))
     i_sh, i_hdr, i_ext, i_pl = (fidx(F, "dlt::Message", n) for n in ("storage_header", "header", "extended_header", "payload"))
     i_ts, i_ecu = fidx(F, "dlt::StorageHeader", "timestamp"), fidx(F, "dlt::StorageHeader", "ecu_id")
     n = 0
@@ -253,7 +253,7 @@ def valid(ctx):
     F, R = ctx.facts, ctx.report
     eng = lib_wire.mk_engine(F)
     b = F.body(VALID)
-    outs = eng.call_path(VALID, eng.symbolic_args(b))
+    outs = eng.call_path(VALID, eng.symbolic_args(b, names=["self"]))
     n = 0
     need = {("Bool", None): {"Bool"}, ("Float", "Width32"): {"F32"}, ("Float", "Width64"): {"F64"}}
     covered = set()
